@@ -915,3 +915,20 @@ def _fixed_point_instances(m):
 
 
 CUSTOM['pane.convert:fixed_point.bounded'] = _fixed_point_instances
+
+
+def _cmp_instances(name):
+    def gen(m):
+        out = []
+        for cls, objs in _instances_of_classes():
+            fn = cls.__dict__.get(name)
+            if fn is None or not objs or not hasattr(fn, '__code__'):
+                continue
+            pairs = [(a, b) for a in objs for b in objs][:16] + [(objs[0], PReq(n=1)), (objs[0], 3)]
+            out += _closure_instances(fn, pairs, f'{cls.__name__}.{name}')
+        return out
+    return gen
+
+
+for _n in ('__lt__', '__le__', '__gt__', '__ge__'):
+    CUSTOM[f'pane.classes:_make_ord.<locals>.{_n}'] = _cmp_instances(_n)
